@@ -46,7 +46,7 @@ Proof.
     try apply commit_frame.
   - destruct (nthN (interned c) id); [apply commit_frame|reflexivity].
   - destruct (st_start W trap (Object len 0) (wstate c) (wstack c)). apply commit_frame.
-  - destruct (st_finish_object W trap (wstate c) (wstack c)). apply commit_frame.
+  - destruct (st_finish_object (wstate c) (wstack c)). apply commit_frame.
   - destruct (st_start W trap (Array len 0) (wstate c) (wstack c)). apply commit_frame.
   - destruct (st_finish_array (wstate c) (wstack c)). apply commit_frame.
 Qed.
@@ -79,7 +79,7 @@ Proof.
     try apply commit_out.
   - destruct (nthN (interned c) id); [apply commit_out|cbn [snd]; discriminate].
   - destruct (st_start W trap (Object len 0) (wstate c) (wstack c)). apply commit_out.
-  - destruct (st_finish_object W trap (wstate c) (wstack c)). apply commit_out.
+  - destruct (st_finish_object (wstate c) (wstack c)). apply commit_out.
   - destruct (st_start W trap (Array len 0) (wstate c) (wstack c)). apply commit_out.
   - destruct (st_finish_array (wstate c) (wstack c)). apply commit_out.
 Qed.
@@ -153,10 +153,14 @@ Definition op_ids (it : list (list N)) (op : wop) : Prop :=
 Lemma add_w_small a : a + 1 < 2 ^ W -> add_w W trap a 1 = Some (a + 1).
 Proof. intro H. unfold add_w. destruct (N.ltb_spec (a + 1) (2 ^ W)); [reflexivity|lia]. Qed.
 
-Lemma mul_w_small l : 2 * l < 2 ^ W -> mul_w W trap l 2 = Some (2 * l).
+(** finish_object's test since the repair of F8: parity and number of complete pairs (no multiplication) *)
+Lemma fin_even l n : (negb ((2 * n) mod 2 =? 0) || negb (2 * n / 2 =? l)) = negb (2 * n =? 2 * l).
 Proof.
-  intro H. unfold mul_w. destruct (N.ltb_spec (l * 2) (2 ^ W)); [f_equal; lia|lia].
+  replace ((2 * n) mod 2) with 0 by lia. replace (2 * n / 2) with n by lia. cbn [N.eqb negb orb].
+  destruct (N.eqb_spec n l), (N.eqb_spec (2 * n) (2 * l)); try reflexivity; lia.
 Qed.
+Lemma fin_odd l n : (negb ((2 * n + 1) mod 2 =? 0) || negb ((2 * n + 1) / 2 =? l)) = true.
+Proof. replace ((2 * n + 1) mod 2) with 1 by lia. reflexivity. Qed.
 
 Lemma ows_even l n : 2 * l < 2 ^ W ->
   obj_write_string W trap l (2 * n)
@@ -231,7 +235,7 @@ Proof.
   all: try (destruct Hinv as (-> & [H1 H2] & HP)).
   all: rewrite ?ows_even, ?owns_even, ?awv by assumption.
   all: rewrite ?ows_odd, ?owns_odd by assumption.
-  all: rewrite ?mul_w_small by assumption.
+  all: rewrite ?fin_even, ?fin_odd.
   all: cbn [commit fst snd wstate wstack frames root deliver deliver_str st_inner map]; unfold res_of_code; codes.
   all: try (split; reflexivity).
   all: repeat match goal with
